@@ -26,12 +26,13 @@ var c01GuardExempt = []GuardExempt{
 }
 
 func checkC01(c *Ctx, r *Report) {
-	r.Explain = "Decides structural necessary conditions of 'a changes request returns exactly the visible changes': (R1) the set of channels a user's feed iterates is the result of filtering the requested channels against the user's available channels (or all requested channels only when there is no user), and every per-channel feed reads the cache obtained for that same channel; (R2) an entry later than the cached high sequence captured at the start of the iteration is not sent (except a revocation triggered at or before it), and that bound only comes from the channel cache's high sequence; (R3) feeds are merged with the proven order SequenceID.Before, the resume position only advances under it, and a waiting (longpoll) request gets the low sequence it arrived with restored before it waits; (R4) lock discipline of the per-channel cache (entries, validity point, doc-id index; late-arrival log) and of the change listener's counters; the per-channel doc-id index is maintained wherever entries leave or enter the entry list; (R5) wake-up protocol — the waiter evaluates its predicate under the notifier's lock inside the loop that waits, and every caller that feeds an entry into the sequence buffer forwards the resulting channel set to the notifier.; (R6) a back-fill lowers a channel cache's validity point only when the queried range reaches up to it. Not decided: that the merged entries equal the visible set, the remaining cache validity-point / back-fill / pruning arithmetic, de-duplication, limit/paging equivalence, liveness."
+	r.Explain = "Decides structural necessary conditions of 'a changes request returns exactly the visible changes': (R1) the set of channels a user's feed iterates is the result of filtering the requested channels against the user's available channels (or all requested channels only when there is no user), and every per-channel feed reads the cache obtained for that same channel; (R2) an entry later than the cached high sequence captured at the start of the iteration is not sent (except a revocation triggered at or before it), and that bound only comes from the channel cache's high sequence; (R3) feeds are merged with the proven order SequenceID.Before, the resume position only advances under it, and a waiting (longpoll) request gets the low sequence it arrived with restored before it waits; (R4) lock discipline of the per-channel cache (entries, validity point, doc-id index; late-arrival log) and of the change listener's counters; the per-channel doc-id index is maintained wherever entries leave or enter the entry list; (R5) wake-up protocol — the waiter evaluates its predicate under the notifier's lock inside the loop that waits, and every caller that feeds an entry into the sequence buffer forwards the resulting channel set to the notifier.; (R6) a back-fill lowers a channel cache's validity point only when the queried range reaches up to it; (R7) a late-arriving removal is queued for the late-sequence feeds as a removal, as it is stored in the cache. Not decided: that the merged entries equal the visible set, the remaining cache validity-point / back-fill / pruning arithmetic, de-duplication, limit/paging equivalence, liveness."
 	c01R1(c, r)
 	c01R2R3(c, r)
 	c01R4(c, r)
 	c01R5(c, r)
 	c01R6(c, r)
+	c01R7(c, r)
 }
 
 func c01Worker(c *Ctx) (*ssa.Function, *ssa.Function) {
@@ -647,5 +648,68 @@ func c01R6(c *Ctx, r *Report) {
 	})
 	if n == 0 {
 		r.Fail("C01-R6", "fn=prependChanges store=validFrom", c.Pos(fn.Pos()), "no store to the validity point found")
+	}
+}
+
+// C01-R7: sibling agreement between a channel cache and its late-sequence log. When a late-arriving entry is a removal from the
+// channel, the cache stores a copy flagged Removed; the entry queued for the late-sequence feeds (which serve continuous requests)
+// must be such a flagged copy too, otherwise a continuous feed announces an ordinary change where a one-shot feed announces a removal.
+func c01R7(c *Ctx, r *Report) {
+	r.Rule("C01-R7", "E2 feasible-edge walk (sibling agreement)", "in channelCacheImpl.AddToCache, on the removal edge the entry handed to AddLateSequence is not the unflagged entry handed to addToCache", 1)
+	fn := c.Func("(*db.channelCacheImpl).AddToCache")
+	if fn == nil {
+		r.Fail("C01-R7", "anchor (*db.channelCacheImpl).AddToCache", "-", "function not found")
+		return
+	}
+	adds := c.Calls(fn, false, nameHasSuffix(".addToCache"))
+	lates := c.Calls(fn, false, nameHasSuffix(".AddLateSequence"))
+	n := 0
+	for _, a := range adds {
+		aa := a.Common().Args
+		if len(aa) < 3 {
+			continue
+		}
+		flag := aa[len(aa)-1]
+		if k, isK := flag.(*ssa.Const); isK && k.Value != nil && k.Value.String() == "false" {
+			continue // never a removal (star channel)
+		}
+		entry := aa[len(aa)-2]
+		for _, l := range lates {
+			// the late-sequence call that follows this cache insertion (no other insertion in between)
+			if ReachAfter(a, func(in ssa.Instruction) bool { return in == ssa.Instruction(l) }, NewAvoid().AddInstr(instrs(adds)...)) == nil {
+				continue
+			}
+			n++
+			la := l.Common().Args
+			lateEntry := la[len(la)-1]
+			construct := fmt.Sprintf("fn=(*db.channelCacheImpl).AddToCache late-entry #%d flagged-as-removal when=cache-entry-is", n)
+			phi, isPhi := lateEntry.(*ssa.Phi)
+			if !isPhi {
+				r.Check("C01-R7", construct, c.Pos(l.Pos()), lateEntry != entry, "a distinct (flagged) entry is queued", "the late-sequence log is handed the very entry that the cache stores a Removed-flagged copy of: a late-arriving removal is sent to continuous feeds as an ordinary change")
+				continue
+			}
+			feasible := FeasiblePhiEdges(fn, phi, func(cond ssa.Value) (bool, bool) {
+				v, pos := BoolTest(cond)
+				if v == flag {
+					return pos, true // on the removal valuation the flag is true
+				}
+				if x, trueMeansNil, ok := NilTest(cond); ok {
+					if b, isB := flag.(*ssa.BinOp); isB && (b.X == x || b.Y == x) {
+						return trueMeansNil == false, true
+					}
+				}
+				return false, false
+			})
+			ok := len(feasible) > 0
+			for _, e := range feasible {
+				if e == entry {
+					ok = false
+				}
+			}
+			r.Check("C01-R7", construct, c.Pos(l.Pos()), ok, "on the removal edge only the flagged copy reaches the late-sequence log", "on the removal edge the late-sequence log can receive the unflagged entry: a late-arriving removal is sent to continuous feeds as an ordinary change")
+		}
+	}
+	if n == 0 {
+		r.Fail("C01-R7", "fn=(*db.channelCacheImpl).AddToCache late-entry", c.Pos(fn.Pos()), "no late-sequence queueing found after a cache insertion that can be a removal")
 	}
 }
